@@ -105,7 +105,18 @@ var curFile *os.File
 var curOp atomic.Value // string
 var curStart atomic.Int64
 
-func execSafe(p *Prop, line string) (res string) {
+// execSafe runs one op on the real code. An op that reports `timeout` (its own deadline
+// expired) is executed a second time and the second answer counts: a stalled machine cannot
+// turn a finishing call into a hang, while genuine non-termination times out again.
+func execSafe(p *Prop, line string) string {
+	res := execOnce(p, line)
+	if res == "timeout" {
+		res = execOnce(p, line)
+	}
+	return res
+}
+
+func execOnce(p *Prop, line string) (res string) {
 	defer func() {
 		if r := recover(); r != nil {
 			res = "panic"
@@ -301,13 +312,28 @@ func Main(p *Prop) {
 		nontr: map[string]struct{}{}, cache: map[string]int{}}
 	curFile, _ = os.Create(filepath.Join(*out, "current.txt"))
 	start := time.Now()
-	// watchdog: an op running longer than the limit is a hang (C04).
+	// watchdog: an op running longer than the limit is a hang (C04). The limit is counted in
+	// observed ticks of this goroutine, not in wall-clock time: if the whole process (or the
+	// machine: a paused VM, a snapshot being taken) stands still, no ticks are observed, and a
+	// gap between two ticks that is much longer than the sleep resets the count.
 	go func() {
-		limit := 20 * time.Second
+		const tick = 500 * time.Millisecond
+		const need = 40 // 20 s of observed running time on the same op
+		var seenStart int64
+		n := 0
+		last := time.Now()
 		for {
-			time.Sleep(500 * time.Millisecond)
+			time.Sleep(tick)
+			now := time.Now()
+			gap := now.Sub(last)
+			last = now
 			s := curStart.Load()
-			if s != 0 && time.Since(time.Unix(0, s)) > limit {
+			if s == 0 || s != seenStart || gap > 4*tick {
+				seenStart, n = s, 0
+				continue
+			}
+			n++
+			if n >= need {
 				op, _ := curOp.Load().(string)
 				os.WriteFile(filepath.Join(*out, "hang.txt"), []byte(op+"\n"), 0o644)
 				c.mu.Lock()
